@@ -91,154 +91,170 @@ def explore(item, ctx, seed, easy_menu, clauses, quarter=True):
                             nb_easy_neg=en, score_class=sc, equal_class=ec)
             if not ok:
                 continue
-            ctx.state()
-            for metric in METRICS:
-                rel = relevant(metric, pos, neg)
-                if not rel:
-                    continue
-                N = population(metric, len(pos), len(neg), ep, en)
-                M = getattr(s, metric)
-                setter = getattr(s, "threshold_at_" + metric)
-                lo_, hi_ = float(M(-math.inf)), float(M(math.inf))
-                lo, hi = min(lo_, hi_), max(lo_, hi_)
-                increasing = lo_ < hi_
-                tie_free = len(set(rel)) == len(rel)
-                scale = max(abs(rel[0]), abs(rel[-1]))
-                tol_t = 4 * (math.nextafter(scale, math.inf) - scale) if scale > 0 else 2e-323
-                sentinels = {math.nextafter(rel[0], -math.inf), math.nextafter(rel[-1], math.inf)}
-                allowed = set(map(float, rel)) | sentinels
-                if "extremes" in clauses and not (clauses - {"extremes"}):
-                    targets = list(EXTREME_TARGETS)
-                else:
-                    targets = sorted(ot.target_alphabet(N, seed, quarter))
-                tarr = np.array(targets, dtype=float)
-                case_m = dict(base_case, metric=metric)
-                res = {}
-                for method in METHODS:
-                    ok, tv = guarded(ctx, "setter-array", dict(case_m, method=method),
-                                     lambda: setter(tarr, method=method))
-                    if not ok:
-                        res = None
-                        break
-                    tv = np.asarray(tv, dtype=float)
-                    if tv.shape != tarr.shape:
-                        ctx.fail("setter-shape", dict(case_m, method=method), observed=list(tv.shape),
-                                 expected=list(tarr.shape))
-                        res = None
-                        break
-                    res[method] = tv
-                if res is None:
-                    continue
-                # metric at, just below and just above every returned threshold
-                mv = {}
-                for method in METHODS:
-                    t = res[method]
-                    m_t = np.asarray(M(t), dtype=float)
-                    if "roundtrip" in clauses and method == "linear":
-                        tb = np.array([step(x, -4) for x in t.tolist()])
-                        ta = np.array([step(x, 4) for x in t.tolist()])
-                        mv[method] = (m_t, np.asarray(M(tb), dtype=float), np.asarray(M(ta), dtype=float))
+            objs = [("constructed", s)]
+            if item.get("mutated", False) and (ep, en) in ((0, 0), (1, 2), (2, 0)) and pos and neg:
+                # an object that answered queries for other scores and was then given these scores through its
+                # public attributes is a Scores object like any other
+                mid_ = (min(pos + neg) + max(pos + neg)) / 2.0  # other scores squeezed into the middle of the new range
+                ok2, s2 = guarded(ctx, "construct", base_case, Scores, [v * 0.01 + mid_ for v in pos], [v * 0.01 + mid_ for v in neg],
+                                  nb_easy_pos=ep + 2, nb_easy_neg=en + 1, score_class=sc, equal_class=ec)
+                if ok2:
+                    for m_ in METRICS:
+                        guarded(ctx, "warm-up", base_case, lambda: (getattr(s2, "threshold_at_" + m_)(np.array([0.0, 0.4, 1.0])),
+                                                                     getattr(s2, m_)(np.array([0.0, 1.0]))))
+                    s2.pos, s2.neg = np.sort(np.asarray(pin)), np.sort(np.asarray(nin))
+                    s2.nb_easy_pos, s2.nb_easy_neg = ep, en
+                    objs.append(("queried with other scores, then attributes assigned", s2))
+            for how, s in objs:
+                base_case = dict(base_case, object=how)
+                ctx.state()
+                for metric in METRICS:
+                    rel = relevant(metric, pos, neg)
+                    if not rel:
+                        continue
+                    N = population(metric, len(pos), len(neg), ep, en)
+                    M = getattr(s, metric)
+                    setter = getattr(s, "threshold_at_" + metric)
+                    lo_, hi_ = float(M(-math.inf)), float(M(math.inf))
+                    lo, hi = min(lo_, hi_), max(lo_, hi_)
+                    increasing = lo_ < hi_
+                    tie_free = len(set(rel)) == len(rel)
+                    scale = max(abs(rel[0]), abs(rel[-1]))
+                    tol_t = 4 * (math.nextafter(scale, math.inf) - scale) if scale > 0 else 2e-323
+                    sentinels = {math.nextafter(rel[0], -math.inf), math.nextafter(rel[-1], math.inf)}
+                    allowed = set(map(float, rel)) | sentinels
+                    if "extremes" in clauses and not (clauses - {"extremes"}):
+                        targets = list(EXTREME_TARGETS)
                     else:
-                        mv[method] = (m_t, m_t, m_t)
-                for j, r in enumerate(targets):
-                    rh = min(max(r, lo), hi)
-                    if clauses == {"extremes"}:
-                        nontriv = (not tie_free) or len(rel) == 1 or ep + en > 0
-                    else:
-                        nontriv = (lo < r < hi and abs(r * N - round(r * N)) > 1e-9) or not tie_free
+                        targets = sorted(ot.target_alphabet(N, seed, quarter))
+                    tarr = np.array(targets, dtype=float)
+                    case_m = dict(base_case, metric=metric)
+                    res = {}
                     for method in METHODS:
-                        t = float(res[method][j])
-                        m_at, m_b, m_a = (float(mv[method][0][j]), float(mv[method][1][j]),
-                                          float(mv[method][2][j]))
-                        case = dict(case_m, r=r, method=method)
-                        ctx.tick()
-                        if nontriv:
-                            ctx.nontrivial()
-                        ctx.outcome((metric, cfg, method, round(m_at, 9), r <= 0, r >= 1))
-                        if "extremes" in clauses and (r <= 0.0 or r >= 1.0):
-                            want = lo if r <= 0.0 else hi
-                            if m_at != want:
-                                ctx.fail("extreme-exact", case, observed={"t": t, "metric_at_t": m_at},
-                                         expected={"metric": want},
-                                         snippet=snippet(pos, neg, cfg, ep, en, metric, r, method))
+                        ok, tv = guarded(ctx, "setter-array", dict(case_m, method=method),
+                                         lambda: setter(tarr, method=method))
+                        if not ok:
+                            res = None
+                            break
+                        tv = np.asarray(tv, dtype=float)
+                        if tv.shape != tarr.shape:
+                            ctx.fail("setter-shape", dict(case_m, method=method), observed=list(tv.shape),
+                                     expected=list(tarr.shape))
+                            res = None
+                            break
+                        res[method] = tv
+                    if res is None:
+                        continue
+                    # metric at, just below and just above every returned threshold
+                    mv = {}
+                    for method in METHODS:
+                        t = res[method]
+                        m_t = np.asarray(M(t), dtype=float)
                         if "roundtrip" in clauses and method == "linear":
-                            if tie_free and not abs(m_at - rh) <= 1.0 / N + 1e-9:
-                                ctx.fail("roundtrip-within-one-sample", case,
-                                         observed={"t": t, "metric_at_t": m_at},
-                                         expected={"r_clipped": rh, "tol": 1.0 / N},
-                                         snippet=snippet(pos, neg, cfg, ep, en, metric, r, method))
-                            mn, mx = min(m_at, m_b, m_a), max(m_at, m_b, m_a)
-                            if not (mn - 1.0 / N - 1e-9 <= rh <= mx + 1.0 / N + 1e-9):
-                                ctx.fail("bracket-within-one-sample", case,
-                                         observed={"t": t, "below": m_b, "at": m_at, "above": m_a},
-                                         expected={"r_clipped": rh, "tol": 1.0 / N},
-                                         snippet=snippet(pos, neg, cfg, ep, en, metric, r, method))
-                    if "coherence" in clauses:
-                        tl, th, tlin = (float(res["lower"][j]), float(res["higher"][j]),
-                                        float(res["linear"][j]))
-                        case = dict(case_m, r=r)
-                        for nm, tt in (("lower", tl), ("higher", th)):
-                            if tt not in allowed:
-                                ctx.fail("lower-higher-is-a-score", dict(case, method=nm), observed=tt,
-                                         expected=sorted(allowed),
-                                         snippet=snippet(pos, neg, cfg, ep, en, metric, r, nm))
-                        ml, mh = float(mv["lower"][0][j]), float(mv["higher"][0][j])
-                        if not ml <= mh:
-                            ctx.fail("metric-lower-le-higher", case,
-                                     observed={"t_lower": tl, "t_higher": th, "m_lower": ml, "m_higher": mh},
-                                     expected="metric(lower) <= metric(higher)",
-                                     snippet=snippet(pos, neg, cfg, ep, en, metric, r, "lower"))
-                        a, b = min(tl, th), max(tl, th)
-                        if not (a - tol_t <= tlin <= b + tol_t):
-                            ctx.fail("linear-between", case, observed={"linear": tlin, "lower": tl, "higher": th},
-                                     expected="lower <= linear <= higher (4 ulp)",
-                                     snippet=snippet(pos, neg, cfg, ep, en, metric, r, "linear"))
-                        # convex combination weighted by frac(r*N)
-                        x = r * N
-                        f = x - math.floor(x)
-                        cands = []
-                        if f < 1e-9 or f > 1 - 1e-9:
-                            cands = [tl, th]  # on the grid: either neighbour pair may have been chosen
+                            tb = np.array([step(x, -4) for x in t.tolist()])
+                            ta = np.array([step(x, 4) for x in t.tolist()])
+                            mv[method] = (m_t, np.asarray(M(tb), dtype=float), np.asarray(M(ta), dtype=float))
                         else:
-                            cands = [(1 - f) * tl + f * th]
-                        tolc = tol_t + 1e-9 * abs(th - tl)
-                        if not any(abs(tlin - c) <= tolc for c in cands):
-                            ctx.fail("linear-is-convex-combination", case,
-                                     observed={"linear": tlin, "lower": tl, "higher": th, "frac": f},
-                                     expected=cands,
-                                     snippet=snippet(pos, neg, cfg, ep, en, metric, r, "linear"))
-                if "monotone" in clauses:
-                    for method in METHODS:
-                        tv = res[method].tolist()
-                        for j in range(len(tv) - 1):
-                            d = tv[j + 1] - tv[j]
-                            bad = d < -tol_t if increasing else d > tol_t
-                            if bad:
-                                ctx.fail("threshold-monotone-in-target", dict(case_m, method=method,
-                                                                              r0=targets[j], r1=targets[j + 1]),
-                                         observed=[tv[j], tv[j + 1]],
-                                         expected="non-decreasing" if increasing else "non-increasing")
-                                break
-                if "vector" in clauses and item.get("scalars", True):
-                    alias = getattr(s, "threshold_at_" + ALIAS_OF[metric])
-                    for method in METHODS:
-                        for j, r in enumerate(targets):
-                            ok, ts = guarded(ctx, "setter-scalar", dict(case_m, method=method, r=r),
-                                             lambda: setter(r, method=method))
+                            mv[method] = (m_t, m_t, m_t)
+                    for j, r in enumerate(targets):
+                        rh = min(max(r, lo), hi)
+                        if clauses == {"extremes"}:
+                            nontriv = (not tie_free) or len(rel) == 1 or ep + en > 0
+                        else:
+                            nontriv = (lo < r < hi and abs(r * N - round(r * N)) > 1e-9) or not tie_free
+                        for method in METHODS:
+                            t = float(res[method][j])
+                            m_at, m_b, m_a = (float(mv[method][0][j]), float(mv[method][1][j]),
+                                              float(mv[method][2][j]))
+                            case = dict(case_m, r=r, method=method)
                             ctx.tick()
-                            if ok:
-                                if isinstance(ts, np.ndarray) or not isinstance(ts, float):
-                                    ctx.fail("scalar-in-scalar-out", dict(case_m, method=method, r=r),
-                                             observed=type(ts).__name__, expected="float")
-                                if float(ts) != float(res[method][j]):
-                                    ctx.fail("array-equals-scalar", dict(case_m, method=method, r=r),
-                                             observed={"array": float(res[method][j]), "scalar": float(ts)},
-                                             expected="identical")
-                        ok, ta_ = guarded(ctx, "alias", dict(case_m, method=method),
-                                          lambda: alias(tarr, method=method))
-                        ctx.tick()
-                        if ok and not np.array_equal(np.asarray(ta_), res[method]):
-                            ctx.fail("alias-identical", dict(case_m, method=method), observed=ta_,
-                                     expected=res[method])
+                            if nontriv:
+                                ctx.nontrivial()
+                            ctx.outcome((metric, cfg, method, round(m_at, 9), r <= 0, r >= 1))
+                            if "extremes" in clauses and (r <= 0.0 or r >= 1.0):
+                                want = lo if r <= 0.0 else hi
+                                if m_at != want:
+                                    ctx.fail("extreme-exact", case, observed={"t": t, "metric_at_t": m_at},
+                                             expected={"metric": want},
+                                             snippet=snippet(pos, neg, cfg, ep, en, metric, r, method))
+                            if "roundtrip" in clauses and method == "linear":
+                                if tie_free and not abs(m_at - rh) <= 1.0 / N + 1e-9:
+                                    ctx.fail("roundtrip-within-one-sample", case,
+                                             observed={"t": t, "metric_at_t": m_at},
+                                             expected={"r_clipped": rh, "tol": 1.0 / N},
+                                             snippet=snippet(pos, neg, cfg, ep, en, metric, r, method))
+                                mn, mx = min(m_at, m_b, m_a), max(m_at, m_b, m_a)
+                                if not (mn - 1.0 / N - 1e-9 <= rh <= mx + 1.0 / N + 1e-9):
+                                    ctx.fail("bracket-within-one-sample", case,
+                                             observed={"t": t, "below": m_b, "at": m_at, "above": m_a},
+                                             expected={"r_clipped": rh, "tol": 1.0 / N},
+                                             snippet=snippet(pos, neg, cfg, ep, en, metric, r, method))
+                        if "coherence" in clauses:
+                            tl, th, tlin = (float(res["lower"][j]), float(res["higher"][j]),
+                                            float(res["linear"][j]))
+                            case = dict(case_m, r=r)
+                            for nm, tt in (("lower", tl), ("higher", th)):
+                                if tt not in allowed:
+                                    ctx.fail("lower-higher-is-a-score", dict(case, method=nm), observed=tt,
+                                             expected=sorted(allowed),
+                                             snippet=snippet(pos, neg, cfg, ep, en, metric, r, nm))
+                            ml, mh = float(mv["lower"][0][j]), float(mv["higher"][0][j])
+                            if not ml <= mh:
+                                ctx.fail("metric-lower-le-higher", case,
+                                         observed={"t_lower": tl, "t_higher": th, "m_lower": ml, "m_higher": mh},
+                                         expected="metric(lower) <= metric(higher)",
+                                         snippet=snippet(pos, neg, cfg, ep, en, metric, r, "lower"))
+                            a, b = min(tl, th), max(tl, th)
+                            if not (a - tol_t <= tlin <= b + tol_t):
+                                ctx.fail("linear-between", case, observed={"linear": tlin, "lower": tl, "higher": th},
+                                         expected="lower <= linear <= higher (4 ulp)",
+                                         snippet=snippet(pos, neg, cfg, ep, en, metric, r, "linear"))
+                            # convex combination weighted by frac(r*N)
+                            x = r * N
+                            f = x - math.floor(x)
+                            cands = []
+                            if f < 1e-9 or f > 1 - 1e-9:
+                                cands = [tl, th]  # on the grid: either neighbour pair may have been chosen
+                            else:
+                                cands = [(1 - f) * tl + f * th]
+                            tolc = tol_t + 1e-9 * abs(th - tl)
+                            if not any(abs(tlin - c) <= tolc for c in cands):
+                                ctx.fail("linear-is-convex-combination", case,
+                                         observed={"linear": tlin, "lower": tl, "higher": th, "frac": f},
+                                         expected=cands,
+                                         snippet=snippet(pos, neg, cfg, ep, en, metric, r, "linear"))
+                    if "monotone" in clauses:
+                        for method in METHODS:
+                            tv = res[method].tolist()
+                            for j in range(len(tv) - 1):
+                                d = tv[j + 1] - tv[j]
+                                bad = d < -tol_t if increasing else d > tol_t
+                                if bad:
+                                    ctx.fail("threshold-monotone-in-target", dict(case_m, method=method,
+                                                                                  r0=targets[j], r1=targets[j + 1]),
+                                             observed=[tv[j], tv[j + 1]],
+                                             expected="non-decreasing" if increasing else "non-increasing")
+                                    break
+                    if "vector" in clauses and item.get("scalars", True):
+                        alias = getattr(s, "threshold_at_" + ALIAS_OF[metric])
+                        for method in METHODS:
+                            for j, r in enumerate(targets):
+                                ok, ts = guarded(ctx, "setter-scalar", dict(case_m, method=method, r=r),
+                                                 lambda: setter(r, method=method))
+                                ctx.tick()
+                                if ok:
+                                    if isinstance(ts, np.ndarray) or not isinstance(ts, float):
+                                        ctx.fail("scalar-in-scalar-out", dict(case_m, method=method, r=r),
+                                                 observed=type(ts).__name__, expected="float")
+                                    if float(ts) != float(res[method][j]):
+                                        ctx.fail("array-equals-scalar", dict(case_m, method=method, r=r),
+                                                 observed={"array": float(res[method][j]), "scalar": float(ts)},
+                                                 expected="identical")
+                            ok, ta_ = guarded(ctx, "alias", dict(case_m, method=method),
+                                              lambda: alias(tarr, method=method))
+                            ctx.tick()
+                            if ok and not np.array_equal(np.asarray(ta_), res[method]):
+                                ctx.fail("alias-identical", dict(case_m, method=method), observed=ta_,
+                                         expected=res[method])
     ctx.sample({"blocks": item["blocks"], "grid": item["grid"], "pos": pos, "neg": neg,
                 "metrics": METRICS, "methods": METHODS, "easy_menu": easy_menu})
